@@ -23,7 +23,7 @@ def raw_cfg(tier, dev="DevNone", keys=None, vals=None, handles=None):
     handles = handles or "H2"
     return dict(spec="Spec", constants={
         "Key": f"<- {keys}", "Val": f"<- {vals}", "KeyLen": "<- KLen", "ValLen": "<- VLen", "Handle": f"<- {handles}",
-        "Hdr": "<- HdrQ", "NoHdr": '"none"', "HdrLen": "<- HL", "MaxRecs": 3, "Deviations": f"<- {dev}"},
+        "Hdr": "<- HdrQ", "NoHdr": '"none"', "HdrLen": "<- HL", "MaxRecs": 3, "WithTruncate": "FALSE", "MaxGen": 0, "Deviations": f"<- {dev}"},
         invariants=RAW_INV, properties=RAW_PROPS, view="View")
 
 
@@ -127,6 +127,7 @@ def backend_layer(tier, seed, ev, rep):
 TRACE_CFG = dict(spec="TraceSpec", constants={
     "Key": "<- TraceKeys", "Val": "<- TraceVals", "KeyLen": "<- TraceKLen", "ValLen": "<- TraceVLen",
     "Handle": "<- TraceHandles", "Hdr": "<- HdrT", "NoHdr": '"none"', "HdrLen": "<- HLT", "MaxRecs": 100000,
+    "WithTruncate": "FALSE", "MaxGen": 0,
     "Deviations": "<- DevNone"}, invariants=("NoDuplicateRecord", "TocSound", "TocComplete", "KeyLenOK", "OneWriter"))
 
 
